@@ -43,8 +43,9 @@ func lookupFlow[T any](urlTree *URLTree[T], url string) lookupFlowNodeResult[T] 
 			continue
 		}
 
+		// a path parameter stands for a non-empty segment (see lookupNode)
 		parametricChild := currentNode.ParametricChild.Child
-		if parametricChild != nil &&
+		if parametricChild != nil && part.Value != "" &&
 			parametricChild.IsPartOfHost == part.IsPartOfHost {
 			currentNode = parametricChild
 			continue
